@@ -68,8 +68,8 @@ def arg_rule(dec: str, A: str, kind: int, in_class: bool, is_lambda: bool) -> bo
 def obligations(tier, seed):
     t = 240 if tier == 'quick' else 1200
     return [
-        dict(name='C04.interface_names', fn='interface_names', shards=plan(skeletons.TEMPLATES, tier, seed + 1, 10, pin_c_quick=True), timeout=t,
-             bounds='see META; quick = seeded rotation of 10 skeletons', public_replay='public_interface_names'),
+        dict(name='C04.interface_names', fn='interface_names', shards=plan(skeletons.TEMPLATES, tier, seed + 1, 10, pin_c_quick=True, always=('walrus_nested_module',)), timeout=t,
+             bounds='see META; quick = walrus_nested_module + a seeded rotation of 9 more skeletons', public_replay='public_interface_names'),
         dict(name='C04.interface_names_ann', fn='interface_names_ann', timeout=t,
              shards=[['k == %d' % k, 'len(A) == %d and len(B) == %d and len(C) == %d' % (L, L, L), '"." not in A and "." not in B and "." not in C', 'rl == True', 'rg == %s' % rg] + (['C == %r' % ('c' * L)] if tier == 'quick' and L > 1 else [])
                      for k in range(len(skeletons.ANN_TEMPLATES)) for (L, rg) in (((1, True), (3, False)) if tier == 'quick' else ((1, True), (1, False), (3, True), (3, False)))],
